@@ -448,9 +448,14 @@ def _freq_valid(a, m):
     if "s" in a: return 0 <= a["s"] <= 1
     return len(a["a"]) == m and all(0 <= x <= 1 for x in a["a"])
 def _wt_valid(a, m):
+    """non-negative weights of the right length (the property's quantifier)"""
     if a is None: return True
     if "s" in a: return a["s"] >= 0
     return len(a["a"]) == m and all(x >= 0 for x in a["a"])
+def _wt_accepted(a, m):
+    """what the code accepts: ndarray weights of any sign; the formula (Z*w)Z' and all views/summaries still apply"""
+    if a is None or "s" in a: return _wt_valid(a, m)
+    return len(a["a"]) == m
 
 def _alleles(case, sel=None):
     """per taxon, per locus: the list of allele states (phased data as is; unphased: x ones and ploidy-x zeros)"""
@@ -488,7 +493,7 @@ def _formula(case, sel=None):
     if est == "yang":
         if m == 0 or any(x * (1 - x) == 0 for x in p): return ("undefined", "reference frequency 0 or 1")
         return ("ok", [[sum(Zm[i][k] * Zm[j][k] / (pl * p[k] * (1 - p[k])) for k in range(m)) / m for j in range(n)] for i in range(n)])
-    if not _wt_valid(case["wt"], m): return ("invalid", "marker weight")
+    if not _wt_accepted(case["wt"], m): return ("invalid", "marker weight")
     w = case["wt"]
     if w is None: w = [Fraction(1)] * m
     elif "s" in w: w = [Fraction(w["s"])] * m
